@@ -24,7 +24,7 @@ def extract(ot):
     return c03_extract(ot, "")
 
 
-def gen_int(form, t, domain, tier):
+def gen_int(form, t, domain, tier, small=False):
     """domain: accept (ascending, step > 0) | accept_desc (step < 0, signed stepped forms only) | reject (no term)
 
     The oracle is division-free: the mathematical length n is a fresh symbolic value in 1..CAP constrained by
@@ -39,6 +39,11 @@ def gen_int(form, t, domain, tier):
     else:
         b.append("let s: %s = 1;" % t)
     b.append("let (aw, ew, sw) = (a as %s, e as %s, s as %s);" % (w, w, w))
+    if small:
+        # quick-tier variant: a quick command is stopped after 900 s including the cold build; with all 8-bit values symbolic the stepped
+        # harnesses need 500-800 s of kissat each.  Bounds and step restricted to a small window (still symbolic, still every relation
+        # between start, step and end: dividing / non-dividing steps, ends on and off the grid, both directions)
+        b.append("kani::assume(aw >= -20 && aw <= 40 && ew >= -20 && ew <= 40 && sw >= -9 && sw <= 9);")
     args = "Value::%s(ac.clone()), %sValue::%s(ec.clone())" % (var, ("Value::%s(sc.clone()), " % var) if stepped else "", var)
     b.append("let ac = Ref::new(a); let ec = Ref::new(e); let sc = Ref::new(s);")
     if domain in ("accept", "accept_desc"):
@@ -89,14 +94,19 @@ def gen_int(form, t, domain, tier):
         desc = "%s on %s when the progression has no term (zero step, wrong direction, start past end): error, panic or empty vector" % (fxn, t)
         bounds = "start, end%s: all values of %s for which the progression has no term" % (", step" if stepped else "", t)
     b.append("forget(ac); forget(ec); forget(sc);")
-    h = H("c15_%s_%s_%s" % (form, t, domain), "    " + "\n    ".join(b), (crate, relp), domain="reject" if domain == "reject" else "accept",
+    if small:
+        bounds += "; quick-tier window: start, end in [-20, 40], step in [-9, 9]"
+    h = H("c15_%s_%s_%s%s" % (form, t, domain, "_q" if small else ""), "    " + "\n    ".join(b), (crate, relp), domain="reject" if domain == "reject" else "accept",
           key="%s/%s/%s" % (form, t, domain), desc=desc,
           functions=["%s (machines/range/%s: size computation, output allocation)" % (fxn, relp), "Range*Scalar::solve/out via dyn MechFunction"],
+          # (unwind CAP + 4, tried so that a result one or two elements too long reaches VP:wrong-length instead of an unwinding assertion of
+          # the fill loop - seeded change C15-3 -, made the quick harnesses 70% slower and one ran out of memory: reverted; an over-long
+          # result therefore shows as inconclusive (exit 2), not as a violation)
           bounds=bounds, unwind=CAP + 2, tier=tier, group=form, solver="kissat")
     h.rec_limit = 1
     h.heavy = True
     # per-kind feature slice (as in C01): under default features the dispatch function carries 12 kinds x fixed-size output forms
-    h.slice = ",".join(["bool", "string", "matrixd", "vectord", "row_vectord", "functions", "compiler", t, "range_default"])
+    h.slice = ",".join(["bool", "string", "matrixd", "vectord", "row_vectord", "functions", "compiler"] + (["u8", "i8"] if t in ("u8", "i8") else [t]) + ["range_default"])
     return h
 
 
@@ -151,10 +161,19 @@ def plan(tier, seed):
         for t in ints:
             if stepped and t not in ("u8", "i8", "i16", "u16"):
                 continue             # see "outside": the f64-computed length of the stepped forms gets no verdict for wider kinds
-            hs.append(gen_int(form, t, "accept", "quick" if t == qk else "thorough"))
-            hs.append(gen_int(form, t, "reject", "quick" if t == qk else "thorough"))
+            # quick tier (stopped after 900 s including the cold build): the unstepped forms for an unsigned and a signed 8-bit kind, all
+            # values; the stepped forms in a small window of values (`_q`, see gen_int) - the full-range stepped harnesses are thorough
+            if stepped:
+                hs.append(gen_int(form, t, "accept", "thorough"))
+                if t == "u8":
+                    hs.append(gen_int(form, t, "accept", "quick", small=True))
+            else:
+                hs.append(gen_int(form, t, "accept", "quick" if t in ("u8", "i8") else "thorough"))
+            hs.append(gen_int(form, t, "reject", "quick" if t in ("u8", "i8") and (t == qk or not stepped) else "thorough"))
             if stepped and t.startswith("i"):
-                hs.append(gen_int(form, t, "accept_desc", "quick" if t == "i8" else "thorough"))
+                hs.append(gen_int(form, t, "accept_desc", "thorough"))
+                if t == "i8":
+                    hs.append(gen_int(form, t, "accept_desc", "quick", small=True))
         if os.environ.get("VERIF_C15_FLOATS"):
             hs.append(gen_float(form, "f32", "quick"))
             hs.append(gen_float(form, "f64", "thorough"))
@@ -172,5 +191,6 @@ def plan(tier, seed):
                     "generator is kept (VERIF_C15_FLOATS=1).  Natively observed and therefore NOT decided by this check: "
                     "`1.5..4.0` evaluates to [1.5 2.5] (length = trunc(b - a))",
                     "the NativeFunctionCompiler wrappers (MutableReference unwrapping)", "range syntax -> dispatch call in expressions.rs"],
-        "caps": {"quick_timeout": 900, "thorough_timeout": 2400},
+        # all quick harnesses side by side (14 of them, < 3 GB each): the quick command must end well inside 900 s
+        "caps": {"quick_timeout": 800, "thorough_timeout": 2400, "heavy_jobs": 14, "heavy_rss_gb": 8},
     }
